@@ -104,7 +104,7 @@ func genC13Script(rng *vrng, idx int64, op string) c13Script {
 	case "close":
 		sc.Stims = append(sc.Stims, c13Stim{At: t, Kind: "close"})
 	case "sockerr":
-		sc.Stims = append(sc.Stims, c13Stim{At: t, Kind: "sockerr"})
+		sc.Stims = append(sc.Stims, c13Stim{At: t, Kind: "sockerr", One: rng.chance(0.5)})
 		sc.Stims = append(sc.Stims, c13Stim{At: t + 1000, Kind: "close"})
 	case "data":
 		k := map[string]string{"read": "data", "write": "open", "accept": "connect"}[op]
@@ -174,12 +174,12 @@ func c13World(t *testing.T, rec *vrec, desc any, link linkCfg, seed uint64) (*se
 	}
 	l.SetReadDeadline(time.Time{})
 	server.SetNoDelay(1, 10, 0, 1)
+	// no deadline is ever set on the sessions here: a script must be able to set
+	// the very first one while a caller is already blocked
 	buf := make([]byte, 100)
-	server.SetReadDeadline(time.Now().Add(time.Minute))
 	if n, err := server.Read(buf); err != nil || n != 5 {
 		panic(fmt.Sprintf("c13World: first read: %d %v", n, err))
 	}
-	server.SetReadDeadline(time.Time{})
 	time.Sleep(200 * time.Millisecond) // let the ACKs settle
 	synctest.Wait()
 	return w, l, client, cconn, server
@@ -226,7 +226,6 @@ func runC13(t *testing.T, rec *vrec, sc *c13Script, rng *vrng) {
 			return []int{c13Delay}
 		})
 		client.SetWindowSize(4, 32)
-		client.SetWriteDeadline(time.Now().Add(time.Minute))
 		for i := 0; i < 64; i++ {
 			client.mu.Lock()
 			full := client.kcp.WaitSnd() >= int(client.kcp.snd_wnd)
@@ -238,7 +237,6 @@ func runC13(t *testing.T, rec *vrec, sc *c13Script, rng *vrng) {
 				panic("c13: filling the window: " + err.Error())
 			}
 		}
-		client.SetWriteDeadline(time.Time{})
 		setDL = func(tm time.Time) {
 			if sc.API == "SetDeadline" {
 				client.SetDeadline(tm)
@@ -529,6 +527,12 @@ func runC13(t *testing.T, rec *vrec, sc *c13Script, rng *vrng) {
 		case "sockerr":
 			switch sc.Op {
 			case "read", "accept":
+				if sc.Op == "read" && st.One {
+					// orderly server shutdown: the listener is closed first, then
+					// its socket fails; the accepted session's readers must still
+					// hear about it
+					l.Close()
+				}
 				w.lconn.failReads(errSimInjected)
 				synctest.Wait()
 				expect(-1, "sockerr", now, "a socket read error")
